@@ -1,5 +1,6 @@
 import FtdcVerif.Lemmas.Codec
 import FtdcVerif.Lemmas.EndToEnd
+import FtdcVerif.Lemmas.StreamE2E
 /-!
 # C01 — structured round trip is lossless
 
@@ -139,6 +140,67 @@ theorem base_collector_roundtrip (n : Nat) (d0 : BDoc) (ds : List BDoc) (hroom :
   obtain ⟨c, hc, hstr⟩ := chunk_roundtrip d0 ds hw hl hts hsim hd0 hds hnm hn hsz
   refine ⟨.chunk (tsDoc d0) d0 (vals d0) (ds.map vals), c, ?_, hc, hstr⟩
   simp only [Better.resolve, h1, h4, h2, h3, h6]
+
+/-- documents the byte-level theorems apply to -/
+def Good (d : BDoc) : Prop :=
+  WFDoc d ∧ (serDoc d).length < 2 ^ 31 ∧ NoTs d ∧ DatesOk d ∧ (vals d).length < 2 ^ 32
+
+/-- **End to end, for the streaming collector, every chunk size, every number of documents.**
+Add `d0` and then any documents `ds` of its schema to a fresh streaming collector with chunk size `n`:
+what it has handed to its writer is a sequence of metric chunks, one per run `(head, tail)` of
+consecutive documents; the pending chunk is one more such run; the runs concatenated are exactly
+`d0 :: ds`; and the reader decodes every one of these chunks to exactly its documents with the
+non-metric leaves removed, in order. -/
+theorem streaming_collector_roundtrip (n : Nat) (h1 : 1 ≤ n) (hn : n < 2 ^ 32) (d0 : BDoc) (ds : List BDoc)
+    (hsim : ∀ d ∈ ds, SimDoc d0 d) (hgood : ∀ d ∈ d0 :: ds, Good d) :
+    ∃ (chs : List (BDoc × List BDoc)) (cur : Option (BDoc × List BDoc)),
+      let c := (d0 :: ds).foldl (fun (c : Streaming) d => (c.add d).1) (Streaming.new n)
+      logDocs c.out = chs.map mkChunk ∧
+      (∀ p, cur = some p → c.inner.resolve = some [mkChunk p]) ∧
+      allDocs chs cur = d0 :: ds ∧
+      ∀ p, (p ∈ chs ∨ cur = some p) →
+        ∃ ch, decodePayload (mkChunk p).payload = .ok ch ∧ ch.structured = (chunkDocs p).map project := by
+  obtain ⟨chs, cur, g, hall⟩ := sg_run n h1 d0 ds hsim
+  refine ⟨chs, cur, g.logged, ?_, hall, ?_⟩
+  · intro p hp
+    have := g.pend
+    rw [hp] at this
+    obtain ⟨⟨a1, a2, a3, a4, _, a6, _⟩, _, _⟩ := this
+    simp only [Better.resolve, a1, a4, mkChunk, a6, a2, a3]
+  · intro p hp
+    -- every document of the chunk is one of `d0 :: ds`
+    have hmem : ∀ x ∈ chunkDocs p, x ∈ d0 :: ds := by
+      intro x hx
+      rw [← hall]
+      rcases hp with hp | hp
+      · simp only [allDocs, List.mem_append, List.mem_flatten, List.mem_map]
+        exact Or.inl ⟨chunkDocs p, ⟨p, hp, rfl⟩, hx⟩
+      · simp only [allDocs, hp, List.mem_append]
+        exact Or.inr hx
+    have hsize : p.2.length + 1 ≤ n := by
+      rcases hp with hp | hp
+      · exact g.small p hp
+      · have := g.pend; rw [hp] at this; exact this.2.2
+    have simTo : ∀ x ∈ d0 :: ds, SimDoc d0 x := by
+      intro x hx
+      rcases List.mem_cons.1 hx with rfl | hx
+      · exact simDoc_refl _
+      · exact hsim x hx
+    have hhead : p.1 ∈ d0 :: ds := hmem p.1 (by simp [chunkDocs])
+    obtain ⟨gw, gl, gts, gd, gnm⟩ := hgood p.1 hhead
+    have hsimp : ∀ x ∈ p.2, SimDoc p.1 x := by
+      intro x hx
+      have hx' := hmem x (by simp [chunkDocs, hx])
+      exact simDoc_trans _ _ _ (simDoc_symm _ _ (simTo p.1 hhead)) (simTo x hx')
+    obtain ⟨ch, hc, hstr⟩ := chunk_roundtrip p.1 p.2 gw gl gts hsimp gd
+      (by intro x hx; exact (hgood x (hmem x (by simp [chunkDocs, hx]))).2.2.2.1)
+      gnm (by omega)
+      (by
+        have a : p.2.length < 2 ^ 32 := by omega
+        have := Nat.mul_lt_mul'' gnm a
+        have e : (2 : Nat) ^ 32 * 2 ^ 32 = 2 ^ 64 := by decide
+        omega)
+    exact ⟨ch, hc, hstr⟩
 
 /-! non-vacuity: `{a: 5, s: "x", n: {b: <double>}}` followed by two more samples of that schema
 (the string leaf differs, which is allowed) meets every hypothesis of `chunk_roundtrip` -/
